@@ -217,7 +217,10 @@ func (e *kvElection) handleHeartbeatFailure(err error) {
 	)
 
 	verifNote(e, "hb_fail", 0)
-	e.becomeFollower()
+	if !e.becomeFollower() {
+		// not leader any more: another path already ended this term
+		return
+	}
 
 	e.mu.RLock()
 	onDemote := e.onDemote
@@ -243,7 +246,10 @@ func (e *kvElection) handleHealthCheckFailure() {
 	)
 
 	verifNote(e, "health_fail", 0)
-	e.becomeFollower()
+	if !e.becomeFollower() {
+		// not leader any more: another path already ended this term
+		return
+	}
 
 	e.mu.RLock()
 	onDemote := e.onDemote
